@@ -112,6 +112,10 @@ func (w *hostWorld) doL2(op vhlib.ParsedLine) (obs string) {
 		return w.doX3(op)
 	case "r3":
 		return w.doR3(op)
+	case "renew":
+		return w.doRenew(op)
+	case "form2":
+		return w.doForm2(op)
 	case "v2roots":
 		return w.doV2Roots(op)
 	case "v2read":
